@@ -114,7 +114,7 @@ func runC12(h *H) {
 		done := 0
 		for s := 0; s < steps; s++ {
 			done++
-			op := g.pick("mmap", "mmap", "mmap", "munmap", "merge", "mergeinto", "setdim", "reset", "gc", "mmap-cancel", "mmap-notmpdir", "mmap-rotmpdir")
+			op := g.pick("mmap", "mmap", "mmap", "munmap", "munmap", "merge", "mergeinto", "setdim", "shrinkcols", "shrinkcols", "reset", "gc", "mmap-cancel", "mmap-notmpdir", "mmap-rotmpdir")
 			g.count("op:" + op)
 			status := "ok"
 			pan := safely(func() {
@@ -168,6 +168,14 @@ func runC12(h *H) {
 					w.Str("setdim").Int(r).Int(c)
 					op = ""
 					cur.SetMajorDim(r)
+					cur.SetMinorDim(c)
+				case "shrinkcols": // truncate rows in place (inside the mapping when swapped out), keep the row count
+					c := 0
+					if cur.MinorDim > 1 {
+						c = 1 + g.intn(cur.MinorDim-1)
+					}
+					w.Str("setdim").Int(cur.MajorDim).Int(c)
+					op = ""
 					cur.SetMinorDim(c)
 				case "reset":
 					cur.Reset()
